@@ -37,6 +37,7 @@ type vfC17Case struct {
 	Relays    int        `json:"relays"`
 	RelayLate int        `json:"relay_late_ms"` // the relay's own connector towards the server is this late (relay in the path only)
 	ActDelay  int        `json:"act_delay_ms"`  // in-band latency for the client's ACT line (a user choosing files, a slow path)
+	Chatter   bool       `json:"chatter,omitempty"`  // in-band terminal traffic both ways every 60 ms from the server's first tunnel line until the transfer is over
 	HoldCfg   bool       `json:"hold_cfg,omitempty"` // see the tunnel hook: in-band shell output between the action and the configuration
 	Impostor  string     `json:"impostor,omitempty"` // connector "impostor": what the thing answering the client's dial presents as its greeting
 }
@@ -359,11 +360,49 @@ func vfC17Run(cs vfC17Case, res *vfC17Stats) string {
 			}()
 		}
 	}
+	chatterStop := make(chan struct{})
+	var chatterOnce sync.Once
+	if cs.Chatter {
+		// a background job keeps printing and the user keeps hitting keys while the transfer runs over the tunnel - and while it
+		// ends: in-band bytes are ignored, so they can neither disturb it nor keep its clean-up (which waits for the input to
+		// fall silent) from finishing
+		inner := sess.tunS2C.onMsg
+		sess.tunS2C.onMsg = func(m vfMsg, before bool) {
+			if inner != nil {
+				inner(m, before)
+			}
+			if before {
+				return
+			}
+			chatterOnce.Do(func() {
+				go func() {
+					limit := time.After(25 * time.Second)
+					for i := 0; ; i++ {
+						select {
+						case <-chatterStop:
+							return
+						case <-limit:
+							return
+						case <-time.After(60 * time.Millisecond):
+						}
+						sess.shellOutput([]byte(fmt.Sprintf("job line %d\r\n", i)))
+						sess.c2s.feed([]byte("k"))
+					}
+				}()
+			})
+		}
+	}
 	run, err := vfStartTransfer(sess, sc.Cfg, e.paths, e.dest)
 	if err != nil {
+		close(chatterStop)
 		return "cannot start: " + err.Error()
 	}
-	run.finish(60 * time.Second)
+	if cs.Chatter {
+		run.finish(22 * time.Second)
+	} else {
+		run.finish(60 * time.Second)
+	}
+	close(chatterStop)
 	done := make(chan struct{})
 	go func() { wg.Wait(); close(done) }()
 	select {
@@ -463,6 +502,7 @@ func vfGenC17(rt *rapid.T) vfC17Case {
 	}
 	cs.ActDelay = rapid.SampledFrom([]int{0, 0, 0, 700, 2500}).Draw(rt, "actdelay")
 	cs.HoldCfg = cs.Connector == "immediate" && cs.Relays > 0 && rapid.Bool().Draw(rt, "holdcfg")
+	cs.Chatter = rapid.IntRange(0, 2).Draw(rt, "chatter") == 0
 	return cs
 }
 
@@ -503,7 +543,10 @@ func TestVF_C17(t *testing.T) {
 		if cs.RelayLate > 0 {
 			labels = append(labels, fmt.Sprintf("relay_connector_late_%d", cs.RelayLate))
 		}
-		c.eval(cs, len(cs.Probes) > 0 || cs.Connector != "immediate" || cs.Junk || cs.RelayLate > 0, labels...)
+		if cs.Chatter && st.tunnelUsed {
+			labels = append(labels, "in_band_chatter_until_the_end")
+		}
+		c.eval(cs, len(cs.Probes) > 0 || cs.Connector != "immediate" || cs.Junk || cs.RelayLate > 0 || cs.Chatter, labels...)
 		return msg
 	})
 }
